@@ -222,6 +222,11 @@ pub enum Op {
     RemoveAnnotation {
         a: Ref,
     },
+    /// remove every annotation that has text on the resource (the resource stays): as one DELETE query,
+    /// or as the equivalent direct calls (remove each of them unless a cascade already removed it)
+    RemoveAnnotationsOn {
+        r: Ref,
+    },
     RemoveData {
         s: Ref,
         d: Ref,
@@ -266,6 +271,7 @@ impl Op {
             Op::AnnotateFile { fault: FileFault::None, .. } => "annotate_file",
             Op::AnnotateFile { .. } => "annotate_file_torn",
             Op::RemoveAnnotation { .. } => "remove_annotation",
+            Op::RemoveAnnotationsOn { .. } => "remove_annotations_on_resource",
             Op::RemoveData { strict: true, .. } => "remove_data_strict",
             Op::RemoveData { strict: false, .. } => "remove_data_nonstrict",
             Op::RemoveKey { strict: true, .. } => "remove_key_strict",
@@ -290,6 +296,7 @@ impl Op {
         matches!(
             self,
             Op::RemoveAnnotation { .. }
+                | Op::RemoveAnnotationsOn { .. }
                 | Op::RemoveData { .. }
                 | Op::RemoveKey { .. }
                 | Op::RemoveResource { .. }
